@@ -611,6 +611,28 @@ impl Battery for E2 {
     }
 }
 
+/// Variants that delegate their body to a field which brings attributes of its own (a record with
+/// a tag, another enum): whoever writes such a value has to announce the attributes of every level.
+#[derive(Form, Debug, PartialEq, Clone)]
+pub enum E3 {
+    Wrap {
+        #[form(attr)]
+        at: i32,
+        #[form(body)]
+        inner: Named,
+    },
+    Deep {
+        #[form(body)]
+        e: E1,
+    },
+    Plain(i32),
+}
+battery!(E3, "E3", "enum variants whose body is a record with its own tag / another enum", |p, out| {
+    cart!(out; at in p.i32s(), inner in p.inner::<Named>(5, 100); E3::Wrap { at, inner });
+    cart!(out; e in p.inner::<E1>(8, 100); E3::Deep { e });
+    cart!(out; a in p.i32s(); E3::Plain(a));
+});
+
 #[derive(Tag, Debug, PartialEq, Eq, Clone, Copy)]
 pub enum Level {
     Trace,
